@@ -641,13 +641,23 @@ def parse_cli_stderr(text: str):
     return verdict, addrs, len(verdicts)
 
 
+_CFG_CACHE: dict = {}
+
+
 def _exec_match(op):
     from jasm.global_definitions import InputFileType, MatchConfig, MatchingReturnMode, MatchingSearchMode
     from jasm.match import MasterOfPuppets
 
     ret = {"bool": MatchingReturnMode.bool, "list": MatchingReturnMode.matched_addrs_list,
            "stream": MatchingReturnMode.all_instructions_string}[op.get("ret", "bool")]
-    cfg = MatchConfig(
+    key = None
+    if op.get("reuse_config"):
+        # the caller repeats an operation with the very same MatchConfig object (and macro list)
+        key = util.cjson({k: v for k, v in op.items() if k in ("rule", "input", "type", "ret", "search", "only_addr", "macros")})
+        cached = _CFG_CACHE.get(key)
+    else:
+        cached = None
+    cfg = cached or MatchConfig(
         pattern_pathstr=op["rule"],
         input_file=op["input"],
         input_file_type=InputFileType.binary if op.get("type") == "binary" else InputFileType.assembly,
@@ -656,6 +666,8 @@ def _exec_match(op):
         matching_mode=MatchingSearchMode.all_finds if op.get("search") == "all" else MatchingSearchMode.first_find,
         macros=list(op["macros"]) if op.get("macros") else None,
     )
+    if key is not None:
+        _CFG_CACHE[key] = cfg
     try:
         if op.get("compile_only"):
             # a complete *compilation* that is never matched (the object is dropped)
